@@ -89,3 +89,15 @@ Theorem C04_names_of_an_accepted_table : forall O, is_space O 32%N = true ->
   validate O T false text = {| normalized := Some (ekey e); errors := []; invalid_symbols := [] |}.
 Proof. exact accepted_name_resolves. Qed.
 Print Assumptions C04_names_of_an_accepted_table.
+
+(* strict parsing gives the same for a name of a license that is not an exception *)
+Theorem C04_names_of_an_accepted_table_strict : forall O, is_space O 32%N = true ->
+  (forall c, In c [97; 110; 100; 111; 114; 119; 105; 116; 104; 40; 41]%N -> is_space O c = false /\ lower_ch O c = [c]) ->
+  (forall c, is_space O c = true -> lower_ch O c = [c]) ->
+  (forall c, is_space O c = false -> lower_ch O c <> [] /\ nospace O (lower_ch O c)) ->
+  forall raw T : list entry, new_licensing O raw = Ok T ->
+  (forall n v, In (n, v) (flat_map (entry_adds O) T) -> forall w, In w (lwords O n) -> is_keyword_str w = false) ->
+  forall e n v text, In e T -> In (n, v) (entry_adds O e) -> lwords O n <> [] -> lwords O text = lwords O n -> eexc e = false ->
+  parse O T false true false text = Ok (Some (Lit (Plain (entry_sym e)))).
+Proof. exact accepted_name_resolves_strict. Qed.
+Print Assumptions C04_names_of_an_accepted_table_strict.
